@@ -28,13 +28,13 @@ CHECKS = {
     },
     "C02": {
         "level": "exploration",
-        "rule": "same generator as C01 weighted towards graphs and unsubscribe/reference-removal while parents load; oracle: reference client with reachability-based retention checks after every frame: no dangling non-soft reference, no event for a resource not held, change only on models, add/remove only on collections with index in bounds, successful subscribe/resource response leaves data. Non-trivial = a resource was handed to the client again after the client dropped it, or dropped while a request whose response later carried it was outstanding, or a reference-carrying event arrived after a drop; distinct by script hash",
+        "rule": "same generator as C01 weighted towards graphs and unsubscribe/reference-removal while parents load; oracle: reference client with reachability-based retention checks after every frame: no dangling non-soft reference, no event for a resource not held, change only on models, add/remove only on collections with index in bounds, successful subscribe/resource response leaves data. The reference client reads values by its protocol version (below 1.2.1 every object with a rid is a reference). Bursts: a get of a tree that shares a child with a pending subscribe. Non-trivial = a resource was handed to the client again after the client dropped it, or dropped while a request whose response later carried it was outstanding, or a reference-carrying event arrived after a drop; distinct by script hash",
         "assumptions": A_SIM + ["clients follow the protocol: they unsubscribe only what was confirmed to them"],
         "parts": [sim(700, 6000)],
     },
     "C03": {
         "level": "exploration",
-        "rule": "C01 generator with dense sequence-numbered custom events around queue/unqueue causes (loading references, access re-checks, query-event locks, reset re-fetches); oracle: per client/rid/holding episode the custom sequence numbers form a contiguous run of the sequence delivered to the gateway, no event before the hand-over, model change events never repeated back-to-back, and the episode open at EOH reaches the last delivered event. Non-trivial = an episode received >=3 custom events; distinct by script hash",
+        "rule": "C01 generator with dense sequence-numbered custom events around queue/unqueue causes (loading references, access re-checks, query-event locks, reset re-fetches); oracle: per client/rid/holding episode the custom sequence numbers form a contiguous run of the sequence delivered to the gateway, no event before the hand-over, model change events never repeated back-to-back, and the episode open at EOH reaches the last delivered event. An event for a resource that no response or event has ever carried to the client is a violation (a get response shows resources, it does not hand them over). Non-trivial = an episode received >=3 custom events; distinct by script hash",
         "assumptions": A_SIM,
         "parts": [sim(300, 5000)],
     },
@@ -46,19 +46,19 @@ CHECKS = {
     },
     "C05": {
         "level": "exploration",
-        "rule": "rapid stateful generation of call/new over WebSocket and POST/PUT/DELETE over HTTP on subscribed (cached verdict) and unsubscribed resources with call lists whose entries are prefixes/suffixes of the methods, token events, reaccess events and matching resets at any step; oracle over the boundary log: every call.* request has a governing access answer of that connection granting the method (* or exact list entry) that no trigger invalidated before the decision step; a granted call is not refused; every access/call/auth payload carries the connection's most recent token. Methods include names with commas (valid in a method, an entry of no list). Unit part: Access.CanCall against the split oracle for generated lists and methods, including the whole list and runs of its entries as the method. Non-trivial = a trigger lies between the access request and a call decided on its cached answer (sim), a list entry that contains or is contained in the method (unit); distinct by script hash",
+        "rule": "rapid stateful generation of call/new over WebSocket and POST/PUT/DELETE over HTTP on subscribed (cached verdict) and unsubscribed resources with call lists whose entries are prefixes/suffixes of the methods, token events, reaccess events and matching resets at any step; oracle over the boundary log: every call.* request has a governing access answer of that connection granting the method (* or exact list entry) that no trigger invalidated before the decision step; a granted call is not refused; every access/call/auth payload carries the connection's most recent token. Methods include names with commas (valid in a method, an entry of no list). Unit part: Access.CanCall against the split oracle for generated lists and methods, including the whole list and runs of its entries as the method. HTTP POST methods with an escaped dot; token events without the token member. Non-trivial = a trigger lies between the access request and a call decided on its cached answer (sim), a list entry that contains or is contained in the method (unit); distinct by script hash",
         "assumptions": A_SIM,
         "parts": [sim(300, 5000), unit("C05-cancall", 40000, 400000)],
     },
     "C06": {
         "level": "exploration",
-        "rule": "rapid stateful generation of token events (repeated, null), reaccess events and system.reset access patterns at every step relative to loading, queued events and pending re-checks, with dense custom events; oracle: for each trigger and each (connection, rid) directly subscribed: an access re-request with the current token follows, a non-grant verdict yields an unsubscribe event with that reason in the verdict's step, and no custom event that reached the gateway after the trigger is framed before the verdict. Non-trivial = events reached the gateway inside a re-check window; distinct by script hash",
+        "rule": "rapid stateful generation of token events (repeated, null), reaccess events and system.reset access patterns at every step relative to loading, queued events and pending re-checks, with dense custom events; oracle: for each trigger and each (connection, rid) directly subscribed: an access re-request with the current token follows, a non-grant verdict yields an unsubscribe event with that reason in the verdict's step, and no custom event that reached the gateway after the trigger is framed before the verdict. At the quiescent end no subscription still holds events back waiting for a verdict (hook queue flag). Non-trivial = events reached the gateway inside a re-check window; distinct by script hash",
         "assumptions": A_SIM + ["no obligation is asserted for a token event that follows a null token"],
         "parts": [sim(300, 5000)],
     },
     "C09": {
         "level": "exploration",
-        "rule": "rapid stateful generation of subscribe/unsubscribe/get/call/disconnect from 1-4 WebSocket connections plus HTTP requests, get errors, delete events, query normalisation, a resource name whose event subject exceeds the control line, requests still in flight when the last subscriber leaves, re-subscription within a 20 ms eviction delay (hook) with sleep ops; oracle: trace invariants on the boundary log (every get under a live event subscription established earlier; data handed to clients only under a subscription uninterrupted since the get answer; no Unsubscribe while a client holds the resource or a request is pending), hook invariant use count = subscribers + pending requests at every quiescent step, and the end state after closing everything (no event/conn subscriptions, both cache gauges zero, a fresh subscribe fetches anew). Non-trivial = an event subscription was released and established again, or a request outlived the subscription; distinct by script hash",
+        "rule": "rapid stateful generation of subscribe/unsubscribe/get/call/disconnect from 1-4 WebSocket connections plus HTTP requests, get errors, delete events, query normalisation, a resource name whose event subject exceeds the control line, requests still in flight when the last subscriber leaves, re-subscription within a 20 ms eviction delay (hook) with sleep ops; oracle: trace invariants on the boundary log (every get under a live event subscription established earlier; data handed to clients only under a subscription uninterrupted since the get answer; no Unsubscribe while a client holds the resource or a request is pending), hook invariant use count = subscribers + pending requests at every quiescent step, and the end state after closing everything (no event/conn subscriptions, both cache gauges zero, a fresh subscribe fetches anew). Aliasing bursts (two raw queries of one normalised query in flight, the second answered first, a query event in between that may be answered notFound). Non-trivial = an event subscription was released and established again, or a request outlived the subscription; distinct by script hash",
         "assumptions": A_SIM,
         "parts": [sim(300, 5000)],
     },
@@ -76,7 +76,7 @@ CHECKS = {
     },
     "C15": {
         "level": "exploration",
-        "rule": "(a) unit: every codec decoder, Value.UnmarshalJSON and rpc.HandleRequest on rapid-generated bytes and grammar-generated/cut JSON over the protocol's key set (no panic; an error comes with a nil result; accepted values are proper; accepted resource ids are valid; meta header keys canonical), native fuzzing in thorough; (b) simulator: in generated valid histories, messages from explicit invalidity classes (syntax errors, wrong JSON types, negative/huge/fractional idx, add/remove on model, change on collection, other type on re-fetch, rid+data, rid+action, action+data, unknown action, bare object/array values, invalid/empty rids, null array elements, one bad value among good ones, partly valid query answers) injected as client frame, event, get/access/call/query answer, system or connection event at any step; oracle: the process survives (journal attribution), the injection step yields no event frame and (hook) leaves the cached JSON of every resource unchanged, later valid messages still converge (C01 oracle) and every request is still answered (C07 oracle). Malformed payloads are also built by construction (any number of well-formed members and exactly one malformed one at a drawn position; a re-fetch answered with a well-formed resource of the other type, empty or not; zero-byte and truncated token events); a malformed resource, system or connection event causes no service request. Non-trivial = the injected message is syntactically valid JSON; distinct by script/input hash",
+        "rule": "(a) unit: every codec decoder, Value.UnmarshalJSON and rpc.HandleRequest on rapid-generated bytes and grammar-generated/cut JSON over the protocol's key set (no panic; an error comes with a nil result; accepted values are proper; accepted resource ids are valid; meta header keys canonical), native fuzzing in thorough; (b) simulator: in generated valid histories, messages from explicit invalidity classes (syntax errors, wrong JSON types, negative/huge/fractional idx, add/remove on model, change on collection, other type on re-fetch, rid+data, rid+action, action+data, unknown action, bare object/array values, invalid/empty rids, null array elements, one bad value among good ones, partly valid query answers) injected as client frame, event, get/access/call/query answer, system or connection event at any step; oracle: the process survives (journal attribution), the injection step yields no event frame and (hook) leaves the cached JSON of every resource unchanged, later valid messages still converge (C01 oracle) and every request is still answered (C07 oracle). Malformed payloads are also built by construction (any number of well-formed members and exactly one malformed one at a drawn position; a re-fetch answered with a well-formed resource of the other type, empty or not; zero-byte and truncated token events); a malformed resource, system or connection event causes no service request. Access answers with a meta status and neither result nor error; decoder oracle: DecodeAccessResponse returns a result or an error. Non-trivial = the injected message is syntactically valid JSON; distinct by script/input hash",
         "assumptions": A_SIM + ["byte-level fuzzing only waits for crashes and decoder contract breaches; semantic containment is checked for the enumerated invalidity classes"],
         "parts": [sim(300, 5000), unit("C15-decode", 60000, 600000), fuzz("FuzzDecoders", 90)],
     },
@@ -94,7 +94,7 @@ CHECKS = {
     },
     "C16": {
         "level": "exploration",
-        "rule": "rapid-generated resource graphs of up to 6 models/collections plus an error leaf and a query resource (shared children, cycles of any length, self references, soft references, nested data values, keys and strings needing JSON escaping), both API encodings, three apiPath prefixes; GET (and HEAD) on drawn resources with everything answered, POST with result / null / resource response; oracle: body parses as JSON and equals an independent recursive reference renderer (path-based cycle cut, error placeholders, data unwrapped, href mapping back to the rid through the reference path decoder), status 200 + Content-Type, HEAD has the same status and headers, POST returns the result verbatim / 204 / Location. Query variants of one name reference each other (pagination) and the plain name; a failed reference is compared as the whole error (code, message, data), with drawn custom messages and data. Non-trivial = the expansion contains a nested reference; distinct by script hash",
+        "rule": "rapid-generated resource graphs of up to 6 models/collections plus an error leaf and a query resource (shared children, cycles of any length, self references, soft references, nested data values, keys and strings needing JSON escaping), both API encodings, three apiPath prefixes; GET (and HEAD) on drawn resources with everything answered, POST with result / null / resource response; oracle: body parses as JSON and equals an independent recursive reference renderer (path-based cycle cut, error placeholders, data unwrapped, href mapping back to the rid through the reference path decoder), status 200 + Content-Type, HEAD has the same status and headers, POST returns the result verbatim / 204 / Location. Query variants of one name reference each other (pagination) and the plain name; a failed reference is compared as the whole error (code, message, data), with drawn custom messages and data. A GET/HEAD pair for a resource whose own get fails with a drawn error code: HEAD equals GET. Non-trivial = the expansion contains a nested reference; distinct by script hash",
         "assumptions": A_SIM + ["graphs are static while a request is served"],
         "parts": [sim(400, 6000)],
     },
@@ -106,37 +106,37 @@ CHECKS = {
     },
     "C10": {
         "level": "exploration",
-        "rule": "rapid stateful generation with 2-4 WebSocket connections plus HTTP requests, distinct tokens and token ids, {cid} tags in resource names, in the middle of names, in queries and in references returned by the service, token events, token resets, events on per-connection resources; oracle over the logs: requests caused by a connection's own frame/request/token event carry that connection's id, every access/call/auth payload carries that connection's current token, no subject or query made for one connection contains another connection's id, no frame or HTTP body sent to any client contains any connection id, events on a {cid} resource reach only its owner, a token reset produces exactly one auth request per connection whose token id is listed; plus the applicability oracle of C02. Token resets also name the empty token id (which addresses nobody). Non-trivial = >= 2 connections, a {cid} resource in use and a token-related event; distinct by script hash",
+        "rule": "rapid stateful generation with 2-4 WebSocket connections plus HTTP requests, distinct tokens and token ids, {cid} tags in resource names, in the middle of names, in queries and in references returned by the service, token events, token resets, events on per-connection resources; oracle over the logs: requests caused by a connection's own frame/request/token event carry that connection's id, every access/call/auth payload carries that connection's current token, no subject or query made for one connection contains another connection's id, no frame or HTTP body sent to any client contains any connection id, events on a {cid} resource reach only its owner, a token reset produces exactly one auth request per connection whose token id is listed; plus the applicability oracle of C02. Token resets also name the empty token id (which addresses nobody). Events on a connection's subject other than the token event (nothing happens, whatever the payload). Non-trivial = >= 2 connections, a {cid} resource in use and a token-related event; distinct by script hash",
         "assumptions": A_SIM + ["cid leakage is a substring scan: a transformed cid would not be recognised"],
         "parts": [sim(300, 5000)],
     },
     "C11": {
         "level": "fault_enumeration",
-        "rule": "rapid generates base histories (4-16 ops after an optional prologue of established subscriptions; C01 generator incl. calls, token resets, resets with access patterns; a third with resetThrottle/referenceThrottle 1-2 so that work can be waiting inside a throttle); for each base of n ops and each of its (up to 3) connections, n+1 variants close that connection before op k, each run in a fresh gateway (evaluations = base + variant runs); oracle: the connection-event subscription is released in the step of the close, no access/call/auth request carrying that connection id is issued in any later step (incl. after token resets and throttle hand-offs), the other connections still get every response (C07 oracle) and converge (C01 oracle), and after closing everything the cache is empty (C09 end state and use-count invariant). A request made for the closing connection within the close step itself counts as one after the disconnect when the close is the step's only stimulus; bursts leave an access re-check deferred behind an event that waits for an unloaded reference, with filler subscriptions in between (the disposal walks a map). Non-trivial = the connection had an unanswered service request or client request when it was closed; distinct by variant script hash",
+        "rule": "rapid generates base histories (4-16 ops after an optional prologue of established subscriptions; C01 generator incl. calls, token resets, resets with access patterns; a third with resetThrottle/referenceThrottle 1-2 so that work can be waiting inside a throttle); for each base of n ops and each of its (up to 3) connections, n+1 variants close that connection before op k, each run in a fresh gateway (evaluations = base + variant runs); oracle: the connection-event subscription is released in the step of the close, no access/call/auth request carrying that connection id is issued in any later step (incl. after token resets and throttle hand-offs), the other connections still get every response (C07 oracle) and converge (C01 oracle), and after closing everything the cache is empty (C09 end state and use-count invariant). A request made for the closing connection within the close step itself counts as one after the disconnect when the close is the step's only stimulus; bursts leave an access re-check deferred behind an event that waits for an unloaded reference, with filler subscriptions in between (the disposal walks a map). The close also races every kind of service event of the base history (a token reset repeated 30 times in its race group). Non-trivial = the connection had an unanswered service request or client request when it was closed; distinct by variant script hash",
         "assumptions": A_SIM + ["gets are anonymous at the messaging boundary: for them only the cache clean-up is asserted", "aborting an HTTP request mid-flight is not modelled"],
         "parts": [sim(14, 220, qtimeout=300)],
     },
     "C20": {
         "level": "fault_enumeration",
-        "rule": "rapid generates base histories (3-12 ops after an optional prologue; idle connections, outstanding subscribe/get/call requests, pending evictions with a 20 ms delay); for each base of n ops and each fault in {Stop(nil), loss of the messaging connection (closed handler invoked from its own goroutine)}, n+1 variants inject the fault before op k in a fresh gateway, followed by a WebSocket dial, an HTTP GET, Start, a new connection subscribing, and the final Stop; oracle: every client socket reads EOF in the fault's step, the stop channel delivers the cause (nil / the lost-connection error), the dial after the fault is not upgraded, the HTTP request gets 503, Stop returns (a Stop that has not returned after 30 s is a deadlock), nothing crashes (journal), no goroutine is left behind, and the restarted service serves the subscribe. After the restart a second fault (loss or Stop, alternating) strikes and the service is started once more: every fault cycle is held to the statement. A fifth of the cases listen on real loopback ports (API, and metrics in half of them): the ports refuse connections after every fault and accept them after every Start. Non-trivial = a service request or client request was outstanding when the fault struck; distinct by variant script hash",
+        "rule": "rapid generates base histories (3-12 ops after an optional prologue; idle connections, outstanding subscribe/get/call requests, pending evictions with a 20 ms delay); for each base of n ops and each fault in {Stop(nil), loss of the messaging connection (closed handler invoked from its own goroutine)}, n+1 variants inject the fault before op k in a fresh gateway, followed by a WebSocket dial, an HTTP GET, Start, a new connection subscribing, and the final Stop; oracle: every client socket reads EOF in the fault's step, the stop channel delivers the cause (nil / the lost-connection error), the dial after the fault is not upgraded, the HTTP request gets 503, Stop returns (a Stop that has not returned after 30 s is a deadlock), nothing crashes (journal), no goroutine is left behind, and the restarted service serves the subscribe. After the restart a second fault (loss or Stop, alternating) strikes and the service is started once more: every fault cycle is held to the statement. A fifth of the cases listen on real loopback ports (API, and metrics in half of them): the ports refuse connections after every fault and accept them after every Start. Fault kind restart (Stop and Start in one step); Stop and loss also race the answers of outstanding calls. Non-trivial = a service request or client request was outstanding when the fault struck; distinct by variant script hash",
         "assumptions": A_SIM + ["base histories contain no HTTP request outstanding at the fault (the 3 s / 5 s shutdown constants cannot be shortened)", "TLS is not exercised; real listeners only in the fifth of the cases that listen on loopback"],
         "parts": [sim(18, 250, qtimeout=300)],
     },
     "C18": {
         "level": "exploration",
-        "rule": "the unmodified nats/nats.go adapter against a scriptable fake NATS server on loopback that enforces the control-line limit exactly as nats-server 2.6.6 does (argument part of PUB/HPUB/SUB > 4096 bytes => -ERR and connection closed); rapid generates 5-40 concurrent requests per case, each with a wire behaviour (one reply, several replies, silence, late reply, timeout pre-response followed by reply / silence / a second pre-response, empty 503, reply racing the deadline, subjects of every length in a band around the limit and far beyond with payload sizes of 1-5 digits), an event burst on a subscription, a long namespace Subscribe, and a server disconnect; oracle: exactly one completion per request, of a kind the behaviour allows, never a timeout earlier than the configured or extended deadline (one-sided), subjects that cannot fit complete with subjectTooLong and are never written, the server never has to drop the connection, events arrive in publish order and none after Unsubscribe returned, disconnect invokes the closed handler. Event payloads take every shape a service may publish (null, true, bare words, pre-response look-alikes, empty); the server also drops the connection while 1-5 requests are pending (one optionally after a pre-response): each completes exactly once without Close. Non-trivial = the case mixes >= 3 behaviours incl. a pre-response or a race; distinct by case hash",
+        "rule": "the unmodified nats/nats.go adapter against a scriptable fake NATS server on loopback that enforces the control-line limit exactly as nats-server 2.6.6 does (argument part of PUB/HPUB/SUB > 4096 bytes => -ERR and connection closed); rapid generates 5-40 concurrent requests per case, each with a wire behaviour (one reply, several replies, silence, late reply, timeout pre-response followed by reply / silence / a second pre-response, empty 503, reply racing the deadline, subjects of every length in a band around the limit and far beyond with payload sizes of 1-5 digits), an event burst on a subscription, a long namespace Subscribe, and a server disconnect; oracle: exactly one completion per request, of a kind the behaviour allows, never a timeout earlier than the configured or extended deadline (one-sided), subjects that cannot fit complete with subjectTooLong and are never written, the server never has to drop the connection, events arrive in publish order and none after Unsubscribe returned, disconnect invokes the closed handler. Event payloads take every shape a service may publish (null, true, bare words, pre-response look-alikes, empty); the server also drops the connection while 1-5 requests are pending (one optionally after a pre-response): each completes exactly once without Close. Loss of the connection with replies buffered behind a held listener, then Close (as the gateway does): no crash (the case in progress is recorded so that a crash of the process is attributed), no double completion. Non-trivial = the case mixes >= 3 behaviours incl. a pre-response or a race; distinct by case hash",
         "assumptions": ["real time: the only time-based verdicts are one-sided (a timeout earlier than the deadline)", "the fake server implements the subset of the NATS client protocol the adapter uses; its control-line rule was read from nats-server 2.6.6 parser.go"],
         "parts": [{"engine": "natsrig", "test": "TestAdapter", "prop": "C18", "quick": {"cases": 14, "shards": 16, "timeout": 120}, "thorough": {"cases": 150, "shards": 16, "timeout": 1200}}],
     },
     "C07": {
         "level": "exploration",
-        "rule": "rapid stateful generation of request mixes (1-2 connections, subscribe/get/unsubscribe/call/auth/new/ill-formed methods, every outcome and order of the dependent access/get/call answers, events, deletes, revocations), end-of-history epilogue answering everything; oracle: reference client counts responses per id (never two, never unknown, error objects with string code/message) and at quiescence every id on an open connection has exactly one. Frames with a method but no id (or a null id) are sent for every action: nothing answers them. Non-trivial = >=2 requests for one rid overlapped, or an unsubscribe/unsubscribe event/delete hit a rid with a pending request; distinct by hash of the executed script",
+        "rule": "rapid stateful generation of request mixes (1-2 connections, subscribe/get/unsubscribe/call/auth/new/ill-formed methods, every outcome and order of the dependent access/get/call answers, events, deletes, revocations), end-of-history epilogue answering everything; oracle: reference client counts responses per id (never two, never unknown, error objects with string code/message) and at quiescence every id on an open connection has exactly one. Frames with a method but no id (or a null id) are sent for every action: nothing answers them. Call and auth answers also carry both a result and a resource, nothing at all, or a resource and an error. Non-trivial = >=2 requests for one rid overlapped, or an unsubscribe/unsubscribe event/delete hit a rid with a pending request; distinct by hash of the executed script",
         "assumptions": A_SIM,
         "parts": [sim(750, 7000)],
     },
     "C08": {
         "level": "exploration",
-        "rule": "rapid stateful generation of subscribe/unsubscribe(count variants)/get/call-with-resource sequences on 1-2 rids with every outcome of the underlying access/get, bursts up to and beyond the 256 limit; oracle: per-connection counter model (successful subscribe and resource responses minus successful unsubscribes, zero at unsubscribe events) judging every unsubscribe response with the lo/hi reading, exact end-of-history probes (count=lo+1 must fail, count=lo must succeed), and the evaluated-afresh rule in a quiet world. Non-trivial = a failed request or a get is followed by a request on the same rid, or a quiet-world probe ran; distinct by hash of the executed script",
+        "rule": "rapid stateful generation of subscribe/unsubscribe(count variants)/get/call-with-resource sequences on 1-2 rids with every outcome of the underlying access/get, bursts up to and beyond the 256 limit; oracle: per-connection counter model (successful subscribe and resource responses minus successful unsubscribes, zero at unsubscribe events) judging every unsubscribe response with the lo/hi reading, exact end-of-history probes (count=lo+1 must fail, count=lo must succeed), and the evaluated-afresh rule in a quiet world. Unsubscribe counts around and beyond the integer limits (2^31, 2^63, 2^64, fractions). Non-trivial = a failed request or a get is followed by a request on the same rid, or a quiet-world probe ran; distinct by hash of the executed script",
         "assumptions": A_SIM + ["an unsubscribe that succeeds against counts of in-flight requests makes exact accounting for that rid undefined; it is skipped from then on (DESIGN 3.6)"],
         "parts": [sim(300, 4000)],
     },
